@@ -22,6 +22,7 @@ from ..astutil import text, short, endswith, calls_in, walk_no_nested, names_loa
 from ..dataflow import DefUse
 from .. import events as E
 from .. import types as T
+from ._h_A import canonicalise
 from ._h_A import (FactReach, Facts, branch_succ, loop_breaks, nodes_of_stmts, nodes_for, kwarg,
                    is_const, stmts_in, never_returns, inliner, expander, bind_call, call_arg,
                    real_loops, Owners, followed, returns_of, value_at, strip_wrappers, atom_of,
@@ -53,6 +54,7 @@ CRE = "self._cell_required_error"
 
 
 def check(run, repo, tier):
+  canonicalise(repo)
   w = World(repo)
   sc = Scan(w)
   r1_funnel(run, w)
